@@ -28,7 +28,7 @@ import BSModel.Gen.Formatter
     parent := N | <cps>             (name of the receiver's parent, for a string receiver)
     graph  := <es>~<from>~<to>      what function <es> returns for <from> (identity if not listed; x and h are computed)
     tree   := S <kind> <cps> | T <name> <pfx> <cbe> <pre> <nattrs> (<key> <val>)*nattrs <nkids> tree*nkids
-    val    := N | s<cps> | s- | l<cps>;<cps>… | l- -/
+    val    := N | s<cps> | s- | l<cps>;<cps>… | l- | o<cps> | o-   (o = a non-str object, given by its str()) -/
 namespace BS.Drv.C15
 open BS.Formatter BS.Drv
 
@@ -96,6 +96,7 @@ def parseKind (s : String) : StrKind :=
 def parseVal (s : String) : AttrVal :=
   if s == "N" then .none
   else if s.startsWith "s" then .str (pcps (s.drop 1).toString)
+  else if s.startsWith "o" then .other (pcps (s.drop 1).toString)
   else
     let r := (s.drop 1).toString
     .list (if r == "-" then [] else (r.splitOn ";").map pcps)
@@ -206,6 +207,7 @@ def showVal : AttrVal → String
   | .none => "N"
   | .str s => "s" ++ showP s
   | .list l => "l" ++ (if l.isEmpty then "-" else ";".intercalate (l.map showP))
+  | .other s => "o" ++ showP s
 
 mutual
 def showNode : Node → List String
